@@ -81,6 +81,7 @@ func (m *Machine) fsOp(kind, name string) {
 			m.crashes++
 			m.fs.Ops--
 			m.crashOps = append(m.crashOps, m.fs.Ops)
+			m.tearFiles()
 			m.fs.OpLog = append(m.fs.OpLog[:len(m.fs.OpLog)-1], "CRASH before "+kind+" "+name)
 			panic(crashSignal{})
 		}
@@ -145,6 +146,17 @@ func (m *Machine) fsIntrinsics() {
 			}
 			m.fsOp("remove", name)
 			delete(m.fs.files, name)
+			return nilErr
+		},
+		"os.Rename": func(m *Machine, fr *frame, a []value) value {
+			from, to := strArg(a[0]), strArg(a[1])
+			f := m.fs.files[from]
+			if f == nil {
+				return m.errVal("rename " + from + ": no such file or directory")
+			}
+			m.fsOp("rename", from+" -> "+to)
+			delete(m.fs.files, from)
+			m.fs.files[to] = f // atomically replaces an existing target, as rename(2) does
 			return nilErr
 		},
 		"os.Stat": func(m *Machine, fr *frame, a []value) value {
@@ -266,4 +278,49 @@ func (fs *FS) Listing() string {
 	}
 	sort.Strings(names)
 	return strings.Join(names, " ")
+}
+
+// tearFiles applies the C14 storage model at a crash: every file with bytes beyond its last
+// fsync keeps an arbitrary prefix between its synced length and its written length (one
+// choice point per such file, every length explored).
+func (m *Machine) tearFiles() {
+	if !m.ExploreTears {
+		return
+	}
+	var names []string
+	for n, f := range m.fs.files {
+		if f.synced < len(f.data) {
+			names = append(names, n)
+		}
+	}
+	sort.Strings(names)
+	for _, n := range names {
+		f := m.fs.files[n]
+		k := len(f.data) - f.synced
+		pick := m.nextDecision(k+1, func(int) bool { return true })
+		keep := len(f.data) - pick // pick 0 = nothing lost
+		if m.tears == nil {
+			m.tears = map[string]int{}
+		}
+		m.tears[n] = keep
+		f.data = f.data[:keep:keep]
+		m.fs.OpLog = append(m.fs.OpLog, fmt.Sprintf("TEAR %s to %d bytes (synced %d)", n, keep, f.synced))
+	}
+}
+
+// Image returns the concrete content of every file, or ok=false if a byte is symbolic.
+func (fs *FS) Image() (map[string][]byte, bool) {
+	out := map[string][]byte{}
+	for n, f := range fs.files {
+		b := make([]byte, len(f.data))
+		for i, t := range f.data {
+			v, ok := t.(*term.Term).ConstVal()
+			if !ok {
+				return nil, false
+			}
+			b[i] = byte(v)
+		}
+		out[n] = b
+	}
+	return out, true
 }
